@@ -7,10 +7,18 @@
 #include "gs_ref.h"
 #include "gs_rx.h"
 #include <algorithm>
+#include <climits>
 #include <new>
 #include <string>
 
 using namespace gs;
+// GS_REDUCED: a second build of the same harness (units.json: -funsigned-char -DGS_REDUCED) with a reduced workload,
+// so that code whose meaning depends on the signedness of plain char (ARM / AArch64 / PowerPC ABIs) is exercised too.
+#ifdef GS_REDUCED
+#define GS_N(quick, thorough_, reduced) (reduced)
+#else
+#define GS_N(quick, thorough_, reduced) (vf::thorough() ? (thorough_) : (quick))
+#endif
 typedef std::vector<uint8_t> Bytes;
 static inline bool same(const uint8_t *a, const uint8_t *b, size_t n) { return n == 0 || memcmp(a, b, n) == 0; }
 
@@ -389,7 +397,7 @@ static Bytes payload_alphabet(Codec k)
 }
 
 // (1) all payloads of length <= L over the 9-symbol alphabet; case = (codec, first two symbols)
-static int small_maxlen() { return vf::thorough() ? 6 : 5; }
+static int small_maxlen() { return GS_N(5, 6, 3); }
 static uint64_t small_count() { return NCODEC * 82; }
 static void small_run(uint64_t idx)
 {
@@ -430,7 +438,7 @@ static void small_run(uint64_t idx)
 VF_SUITE(small, small_count, small_run)
 
 // (2) payloads whose CRC-8 is itself a marker or an escape code: random prefix + solved suffix
-static uint64_t crcmark_count() { return NCODEC * (vf::thorough() ? 400 : 60); }
+static uint64_t crcmark_count() { return NCODEC * GS_N(60, 400, 6); }
 static void crcmark_run(uint64_t idx)
 {
     Codec k = (Codec)(idx % NCODEC);
@@ -478,7 +486,7 @@ static void crcmark_run(uint64_t idx)
 VF_SUITE(crcmark, crcmark_count, crcmark_run)
 
 // (3) random payloads up to 300 bytes, marker-biased, random partitions with empty pieces
-static uint64_t rand_count() { return vf::thorough() ? 60000 : 4500; }
+static uint64_t rand_count() { return GS_N(4500, 60000, 450); }
 static void rand_run(uint64_t idx)
 {
     vf::Rng r(vf::seed(), 0xC04A, idx);
@@ -506,7 +514,7 @@ static void rand_run(uint64_t idx)
 VF_SUITE(randpay, rand_count, rand_run)
 
 // (4) every iovec partition of payloads of length 5..8 (lengths <= 4/6 are covered by `small`)
-static uint64_t part_count() { return vf::thorough() ? 3000 : 400; }
+static uint64_t part_count() { return GS_N(400, 3000, 24); }
 static void part_run(uint64_t idx)
 {
     vf::Rng r(vf::seed(), 0xC04B, idx);
@@ -525,6 +533,9 @@ VF_SUITE(partitions, part_count, part_run)
 // (5) long payloads around and beyond 2^16 ("any length ... a receiver with a large enough buffer")
 static std::vector<size_t> long_lengths()
 {
+#ifdef GS_REDUCED
+    return std::vector<size_t>{65536};
+#endif
     std::vector<size_t> v{65000, 65534, 65535, 65536, 65600, 70000, 200000, 400000};
     if (vf::thorough())
     {
@@ -578,7 +589,7 @@ static void long_run(uint64_t idx)
 VF_SUITE(longpay, long_count, long_run)
 
 // (6) one history that interleaves alphabets, codecs, encoder forms, context placements and receiver objects
-static uint64_t inter_count() { return vf::thorough() ? 6000 : 300; }
+static uint64_t inter_count() { return GS_N(300, 6000, 40); }
 static void inter_run(uint64_t idx)
 {
     vf::Rng r(vf::seed(), 0xC04D, idx);
@@ -642,7 +653,7 @@ VF_SUITE(interleave, inter_count, inter_run)
 
 // (7) EXTRA configuration dimension, beyond the letter of the statement ("both marker alphabets"): caller-defined
 // gstuff_context values.  Reduced workload; keys are prefixed "custom-alphabet:".
-static uint64_t custom_count() { return 2 * (uint64_t)(3 * 17 + (vf::thorough() ? 400 : 20)); }
+static uint64_t custom_count() { return 2 * (uint64_t)GS_N(3 * 17 + 20, 3 * 17 + 400, 3 * 17); }
 static void custom_run(uint64_t idx)
 {
     bool shared = idx % 2;
@@ -657,7 +668,7 @@ static void custom_run(uint64_t idx)
     // all payloads of length <= 3 over the marker/code alphabet, every form, every partition
     all_forms(k, Bytes(), 0, true, 0, nullptr);
     uint64_t A = al.size(), cnt = A;
-    for (int len = 1; len <= 3; len++, cnt *= A)
+    for (int len = 1; len <= GS_N(3, 3, 2); len++, cnt *= A)
         for (uint64_t t = 0; t < cnt; t++)
         {
             Bytes p;
@@ -725,11 +736,24 @@ static void calib_run(uint64_t)
         vf::fail("C04:harness:legacy-storage", "gstuff_autorecv_v1 is %d bytes", lg_sizeof());
     // CRC-8 calibration: the suite's own vector hello/world/! has length 14 and nothing escaped
     VF_OK("reference alphabets == shipped gstuff_context values");
+    if (CHAR_MIN == 0)
+        VF_OK("plain char is unsigned in this build");
 }
 VF_SUITE(calib, calib_count, calib_run)
 
 extern "C" void vf_setup()
 {
+#ifdef GS_REDUCED
+    for (const char *c : {"plain char is unsigned in this build", "frame length <= 2n+4", "no raw marker inside, every STUB followed by a code",
+                          "reference decode: interior == payload ++ trailer", "trailer == CRC-8 of the payload",
+                          "receiver: exactly one NEWPACKAGE, on the last byte, no error before", "receiver: content == payload",
+                          "legacy receiver: line == payload ++ CRC-8", "self-sizing encoder ran under ASan", "iovec partition (enumerated)",
+                          "payload whose CRC-8 equals START/STOP/STUB", "all-marker payload (worst-case expansion)",
+                          "custom-alphabet: round trip over a caller-defined gstuff_context (extra dimension)", "status:v1:NEWPACKAGE",
+                          "status:v0:NEWPACKAGE", "status:legacy:NEWPACKAGE", "status:custom:NEWPACKAGE"})
+        vf::require(c);
+    return;
+#endif
     for (const char *c :
          {"frame length <= 2n+4", "frame[0]==START and frame[last]==STOP", "no raw marker inside, every STUB followed by a code",
           "reference decode: interior == payload ++ trailer", "trailer == CRC-8 of the payload",
